@@ -223,17 +223,20 @@ def nextIndices (stop : Option Nat) (s : FillState) : Option Nat :=
   | some st => if s.pendingIdx ≥ st then none else some s.pendingIdx
   | none => some s.pendingIdx
 
+/-- the part of `fill_into` after the index has been fetched:
+`if self._index == self._next_index: element.fill(value)`; `self._index += 1` -/
+def fillTail (s : FillState) : FillState × FillOut :=
+  if s.index + 1 == s.nextIndex1 then ({ s with index := s.index + 1 }, .filled)
+  else ({ s with index := s.index + 1 }, .skipped)
+
+/-- `Slice.fill_into(element, value)` -/
 def fillInto (stop : Option Nat) (step : Nat) (s : FillState) : FillState × FillOut :=
   -- `if self._index > self._next_index`
-  let (s1, stopped) :=
-    if s.index + 1 > s.nextIndex1 then
-      match nextIndices stop s with
-      | none => (s, true)
-      | some i => ({ s with nextIndex1 := i + 1, pendingIdx := s.pendingIdx + step }, false)
-    else (s, false)
-  if stopped then (s, .stopFill)
-  else if s1.index + 1 == s1.nextIndex1 then ({ s1 with index := s1.index + 1 }, .filled)
-  else ({ s1 with index := s1.index + 1 }, .skipped)
+  if s.index + 1 > s.nextIndex1 then
+    match nextIndices stop s with
+    | none => (s, .stopFill)          -- `except StopIteration: raise LenaStopFill()`
+    | some i => fillTail { s with nextIndex1 := i + 1, pendingIdx := s.pendingIdx + step }
+  else fillTail s
 
 /-- feed a flow value by value; collect the values that were filled and whether (and where)
 `LenaStopFill` was raised (feeding stops there, as every caller does) -/
